@@ -272,6 +272,24 @@ def check(c):
             # (and, under it, the recomputation) is reached
             c.post('C04.future-offset', f, s, lambda n: any(
                 n is t for t in tests), 'the future-offset recomputation')
+    # ... and a task definition's own largest future offset is recorded for
+    # every trigger whose upstream point lies after the task's point --
+    # whether the offset is written relative to the task's point or to the
+    # initial cycle point
+    gpq = c.func('task_trigger', 'Dependency.get_prerequisite')
+    mfs = [n for n in ast.walk(gpq.node) if isinstance(n, ast.Assign)
+           and norm(n.targets[0]) == 'tdef.max_future_prereq_offset']
+    c.floor('C04.future-offset', f'{gpq.fq} :: tdef.max_future_prereq_offset '
+            'recorded', len(mfs), 1)
+    for n in mfs:
+        c.guard('C04.future-offset', n, ['point < prereq_offset_point'], gpq)
+        c.guard_only('C04.future-offset', n, [
+            'point < prereq_offset_point',
+            '!(prereq_offset_point < tdef.initial_point)',
+            '!(task_trigger.cycle_point_offset is None)',
+            AnyOf('tdef.max_future_prereq_offset is None',
+                  'tdef.max_future_prereq_offset < prereq_offset')], gpq,
+            what='for ICP-relative and point-relative offsets alike;')
     c.who_calls('C04.future-offset', 'set_max_future_offset', {
         f'{TP}:TaskPool.add_to_pool': [], f'{TP}:TaskPool.remove': []},
         floor=2)
